@@ -3,6 +3,7 @@ package world
 import (
 	"encoding/json"
 	"fmt"
+	"net/url"
 	"strings"
 	"time"
 
@@ -213,7 +214,8 @@ func (o *Oracle) judgeL1(e *Exchange) {
 	if path == "/ping" {
 		return
 	}
-	if e.Status == 400 && strings.HasPrefix(string(e.RespBody), "400 Bad Request") {
+	if e.Status == 400 && (strings.HasPrefix(string(e.RespBody), "400 Bad Request") ||
+		(e.Method == "HEAD" && len(e.RespBody) == 0 && strings.EqualFold(e.RespHdr.Get("Connection"), "close") && strings.HasPrefix(e.RespHdr.Get("Content-Type"), "text/plain"))) {
 		o.res.probe("malformed_request_rejected_by_net_http")
 		return // net/http's own answer to a malformed request: it never reached sso-proxy
 	}
@@ -229,6 +231,7 @@ func (o *Oracle) judgeL1(e *Exchange) {
 		}
 		return
 	}
+	o.judgeGroupQuestion(e, pol)
 	o.judgeHardening(e, pol)
 	o.judgePages(e)
 	o.noteFlowStart(e, pol)
@@ -528,6 +531,18 @@ func (o *Oracle) judgeRuleRefusal(e *Exchange, pol *Policy, sv *sessionVerdict, 
 	if e.Status == 0 || e.Status == 301 || e.Err != "" || o.abs(e.Done).After(S.LifetimeDeadline.Add(-2*margin)) {
 		return // (301 is the router's path-cleaning redirect: neither served nor refused)
 	}
+	if o.w.Up.PendingTamper != "" {
+		// the corrupt fault rewrote this request on its way to the backend and no handler there received it:
+		// the backend's server rejected it as malformed and the proxy relayed that answer — the request was admitted
+		o.res.cover("C11.A2|admitted-backend-rejected-tampered")
+		return
+	}
+	if e.Status == 502 || e.Status == 503 || e.Status == 504 {
+		// a gateway error: the proxy admitted the request and then could not reach (or hear from) the
+		// backend — not a verdict about the user
+		o.res.cover("C11.A2|admitted-backend-failed")
+		return
+	}
 	path, _, _ := requestPath(e.Target)
 	switch path {
 	case "/oauth2/callback", "/oauth2/sign_out", "/robots.txt", "/oauth2/v1/certs":
@@ -628,4 +643,30 @@ func ternary(c bool, a, b string) string {
 		return a
 	}
 	return b
+}
+
+// judgeGroupQuestion: the verdicts below are read off what the authenticator answered, which is only
+// sound if the proxy asked about the groups this upstream configures — all of them and no others.
+func (o *Oracle) judgeGroupQuestion(e *Exchange, pol *Policy) {
+	if e.Overlap {
+		return // the partner's question may be about another upstream
+	}
+	for _, c := range e.Children {
+		if c.Link != L2 || endpointOf(c.Path) != "profile" {
+			continue
+		}
+		q, err := url.ParseQuery(c.RawQuery)
+		if err != nil {
+			continue
+		}
+		var asked []string
+		if g := q.Get("groups"); g != "" {
+			asked = strings.Split(g, ",")
+		}
+		o.res.cover(fmt.Sprintf("C11.A1|question|rule=%d", min(len(pol.Groups), 3)))
+		// group names may themselves contain commas: compare in the spelling that travels
+		if !sameSet(asked, strings.Split(strings.Join(pol.Groups, ","), ",")) && !(len(pol.Groups) == 0 && len(asked) == 0) {
+			o.violate(e, "C11.A1-login-iff-admitted", fmt.Sprintf("upstream %s lists groups %v; the proxy asked the authenticator about %v", e.Host, pol.Groups, asked), "cause", "question-differs-from-rule")
+		}
+	}
 }
